@@ -28,6 +28,15 @@ PROPS = {
  "C02": A("cases are seeded step lists (lifecycle ops, gossip/deliver/dup/drop, up/down notifications, push/pull, crafted intents, clock advances) over 2-4 real nodes followed by a generous closing sync; distinct = distinct canonical step-list hash; non-trivial = at least one fault fired (drop, duplicate, reorder, crash, restart, half push/pull, false-positive down, crafted intent)",
           "Seeded exploration of delivery schedules and lifecycle histories over 2-4 real Serf nodes; step invariants (status time monotone, stale intents inert) after every step and final agreement against ground truth after a generous state sync; every violation is minimised (ddmin) and replays exactly. Exploration, not exhaustive: a clean batch is evidence.",
           quick=(12000, 60), thorough=(400000, 1500)),
+ "C03": A("cases are seeded sequences of departure claims about the local node (leave / force-leave / prune, by gossip and inside push/pull left lists, Lamport times below/equal/above its own join time and clock, up to 2^64-3) interleaved with rejoins, user events, stale self-joins, push/pull status-time relays and clock advances; distinct = distinct step-list hash; non-trivial = at least one claim injected",
+          "Seeded exploration of claim histories against one real running node (optionally with a real joined peer); after every step the node must list itself alive and, for every claim newer than its latest join, a refuting join with a greater Lamport time must be in its broadcast queue. Exact replay.",
+          quick=(6000, 45), thorough=(300000, 900)),
+ "C04": A("cases are a pool of join/leave intents, user events and queries about members in every state (unknown, alive, leaving, left, failed, self) delivered in seeded orders with duplicates, interleaved with member up/down notifications, push/pull merges built from the same pool and clock advances inside the retention window, optionally followed by a 3-node lossless flood; distinct = distinct step-list hash; non-trivial = at least one message delivered",
+          "Seeded exploration against one real node: after every delivery the node's broadcast queues are drained and everything it queued is attributed; each distinct message may be queued at most once, merges may queue nothing but a refuting join; a closed-loop 3-node lossless flood must drain within a fixed number of rounds. Exact replay.",
+          quick=(6000, 45), thorough=(300000, 900)),
+ "C05": A("cases are seeded user-event histories against one real node (event buffer size drawn from {1,2,3,4,8,64,512}): events with Lamport times placed around the window edges and slot collisions up to the 64-bit edge, duplicates, replays through push/pull state (with nil slots), locally issued events, real joins with and without ignoreOld against a real peer; distinct = distinct step-list hash; non-trivial = at least one event injected",
+          "Seeded exploration; reference model = set of (time, name, payload) already delivered plus the join cut-off: a second delivery of any event is a violation, and an event first seen strictly inside the window and not older than the cut-off must be delivered. Exact replay.",
+          quick=(8000, 45), thorough=(400000, 900)),
 }
 
 NOT_APPLICABLE = {
